@@ -1171,7 +1171,7 @@ pub fn build(seed: u64, size: usize) -> Pool {
     {
         let mut found = 0;
         let mut tries = 0;
-        while found < n(8) && tries < 30_000 {
+        while found < n(8) && tries < 8_000 {
             tries += 1;
             let r = rng.range(4, 14) as i32;
             // the slivers are polar for the most part
@@ -1194,7 +1194,7 @@ pub fn build(seed: u64, size: usize) -> Pool {
             // neighbours in the same sliver, grouped by the answer they get: a family is worth most
             // when near-identical points get DIFFERENT answers
             let mut by_answer: Vec<(u64, Vec<(f64, f64)>)> = vec![(c0, vec![(lon, lat)])];
-            for k in 0..400 {
+            for k in 0..160 {
                 let scale = [0.3, 0.1, 0.03, 0.01][k % 4];
                 let (lon2, lat2) = (lon + rng.uniform(-scale, scale), (lat + rng.uniform(-scale, scale) * 0.1).clamp(-90.0, 90.0));
                 if let Some(c2) = in_gap(lon2, lat2) {
@@ -1212,7 +1212,7 @@ pub fn build(seed: u64, size: usize) -> Pool {
                     }
                 }
             }
-            if by_answer.len() < 2 && tries < 20_000 {
+            if by_answer.len() < 2 && tries < 5_000 {
                 continue;
             }
             found += 1;
